@@ -36,12 +36,18 @@ def schemes(seed, tier):
                       '[] s = "2" -> 2 [] s = "3" -> 3 [] s = "7" -> 7 [] s = "-1" -> -1]',
         "MC_ExtraStrs": '{"zz", ""}',
         "MC_ExtraInts": "{7, -1}",
+        # the usual layout (1-based element ids, so that "0" / 0 is a position, zero-padded
+        # sub-variable ids) and one whose numeric strings collide across the three id kinds
+        "MC_Pinned": '{[alias |-> <<"p", "1", "2">>, svid |-> <<"0001", "p", "2">>, '
+                     'eid |-> <<1, 2, 3>>, ins |-> {}], '
+                     '[alias |-> <<"p", "0", "2">>, svid |-> <<"1", "2", "0001">>, '
+                     'eid |-> <<3, 1, 2>>, ins |-> {1}]}',
         "MC_Canon": '[i \\in {0, 1, 2, 3} |-> CASE i = 0 -> "0" [] i = 1 -> "1" [] i = 2 -> "2" '
                     '[] i = 3 -> "3"]',
     }
     cfg = ["CONSTANTS", "  N = %d" % N, "  AliasPool <- MC_AliasPool", "  SvidPool <- MC_SvidPool",
            "  EidPool <- MC_EidPool", "  Numeric <- MC_Numeric", "  ExtraStrs <- MC_ExtraStrs",
-           "  ExtraInts <- MC_ExtraInts", "  Canon <- MC_Canon", "  SimMode = %s", "  Sample = %d" % (3 if tier == "quick" else 8),
+           "  ExtraInts <- MC_ExtraInts", "  Canon <- MC_Canon", "  Pinned <- MC_Pinned", "  SimMode = %s", "  Sample = %d" % (3 if tier == "quick" else 8),
            "SPECIFICATION Spec", "CHECK_DEADLOCK FALSE",
            "INVARIANT ThmAliasAndEidResolve", "INVARIANT ThmRewriteIdempotent",
            "INVARIANT ThmDtIdAndValueAgree", "INVARIANT ThmSpelledEidAgrees"]
